@@ -14,6 +14,8 @@ import LianVerif.Drv.Events
 import LianVerif.Drv.Scope
 import LianVerif.Drv.Hoist
 import LianVerif.Drv.Termination
+import LianVerif.Drv.Flatten
+import LianVerif.Drv.WfCheck
 
 open Lean LianVerif.Drv
 
@@ -33,6 +35,8 @@ def dispatch (j : Json) : Except String Json := do
   | "resolver" => LianVerif.Drv.Scope.handleResolver j
   | "hoist" => LianVerif.Drv.Hoist.handle j
   | "termination" => LianVerif.Drv.Termination.handle j
+  | "flatten" => LianVerif.Drv.Flatten.handle j
+  | "wfcheck" => LianVerif.Drv.WfCheck.handle j
   | _ => throw s!"unknown model {m}"
 
 partial def loop (hin hout : IO.FS.Stream) : IO Unit := do
